@@ -27,6 +27,6 @@ for d in native/*/; do
   [ -f "$d/Cargo.toml" ] || continue
   n=$(basename "$d")
   cp /repo/Cargo.lock "$d/Cargo.lock" 2>/dev/null || true
-  (cd "$d" && timeout 1500 cargo build --offline --target-dir "$PWD/../../.build/native-target/$n" >/dev/null 2>&1 || true)
+  (cd "$d" && timeout 1500 cargo build --offline --target-dir "$PWD/../../.build/native-target/all" >/dev/null 2>&1 || true)
 done
 echo setup done
